@@ -896,10 +896,12 @@ def natural_sweep(ctx, path, max_records, max_modules):
 # (D) prepare_output_directory
 # --------------------------------------------------------------------------------------------
 
-D_ELEMENTS = ["log", "json", "region", "file", "dir", "html", "hidden", "nearmiss"]
+D_ELEMENTS = ["log", "json", "region", "file", "dir", "html", "hidden", "nearmiss", "inputlike"]
 D_DESIGN_ELEMENTS = ["log", "json", "region", "file", "dir", "html"]
 D_INPUT = ["absent", "dir", "file"]
-D_MODES = ["fresh", "reuse-inside", "reuse-elsewhere"]
+# reuse-sibling: the reused results lie in a directory whose path merely starts with the output directory's path
+D_MODES = ["fresh", "reuse-inside", "reuse-elsewhere", "reuse-sibling"]
+ELSEWHERE_MODES = ("reuse-elsewhere", "reuse-sibling")
 D_LOGCFG = ["unset", "inside", "outside"]
 REGION_PATTERN = "*.region???.gbk"
 
@@ -912,6 +914,7 @@ D_FILES = {
             "stray/input/nested.gbk": b"nested input"},        # materialised from D_POOL_DIRS["stray"]
     "html": {"index.html": b"<html>old results</html>"},
     "hidden": {".hidden": b"hidden but precious"},
+    "inputlike": {"raw_input/reads.gbk": b"not antiSMASH's input copy"},     # materialised from D_POOL_DIRS["raw_input"]
     "nearmiss": {"in.region0001.gbk": b"four digits", "in.region01.gbk": b"two digits",
                  "in.region001.gbk.bak": b"backup"},
 }
@@ -945,9 +948,11 @@ def _put(path, content, parents=True):
 D_POOL_DIRS = {
     "input": {"in.gbk": b"LOCUS input copy\n//\n"},
     "stray": {"keep.txt": b"keep me", "in.region001.gbk": b"nested region file", "input/nested.gbk": b"nested input"},
+    "raw_input": {"reads.gbk": b"not antiSMASH's input copy"},
 }
 D_STATIC = {"src/in.gbk": b"LOCUS input\n//\n", "elsewhere/prev.json": b'{"version": "elsewhere"}',
-            "elsewhere/prev.region001.gbk": b"another run's region", "logs/run.log": b"outside log\n"}
+            "elsewhere/prev.region001.gbk": b"another run's region", "logs/run.log": b"outside log\n",
+            "out_old/prev.json": b'{"version": "sibling"}', "cwd/prev_old/prev.json": b'{"version": "sibling"}'}
 _SANDBOX_STATE: dict = {}
 
 
@@ -998,11 +1003,12 @@ def run_dir_case(ctx, sandbox, case, main_module, config_module):
         _sandbox_reset(sandbox)
     neutral = os.path.join(sandbox, "cwd")
     mode = case["mode"]
-    stem = "prev" if mode == "reuse-elsewhere" else "in"
+    stem = "prev" if mode in ELSEWHERE_MODES else "in"
     outdir = os.path.join(neutral, stem) if case["name"] == "derived" else os.path.join(sandbox, "out")
     input_file = {"fresh": os.path.join(sandbox, "src", "in.gbk"),
                   "reuse-inside": os.path.join(outdir, "in.json"),
-                  "reuse-elsewhere": os.path.join(sandbox, "elsewhere", "prev.json")}[mode]
+                  "reuse-elsewhere": os.path.join(sandbox, "elsewhere", "prev.json"),
+                  "reuse-sibling": outdir + "_old" + os.sep + "prev.json"}[mode]
     state = case["path_state"]
     try:
         _run_dir_case(ctx, sandbox, case, main_module, config_module, neutral, outdir, input_file, state)
@@ -1018,6 +1024,9 @@ def _run_dir_case(ctx, sandbox, case, main_module, config_module, neutral, outdi
         for element in case["elements"]:
             if element == "dir":
                 os.rename(os.path.join(sandbox, "pool", "stray"), os.path.join(outdir, "stray"))
+                continue
+            if element == "inputlike":
+                os.rename(os.path.join(sandbox, "pool", "raw_input"), os.path.join(outdir, "raw_input"))
                 continue
             for rel, content in D_FILES[element].items():
                 _put(os.path.join(outdir, rel), content, parents=False)
@@ -1149,6 +1158,8 @@ def dir_cases(elements_universe, full):
                     for logcfg in D_LOGCFG:
                         if not full and logcfg == "outside" and "log" not in subset:
                             continue
+                        if not full and mode == "reuse-sibling" and (len(subset) > 2 or logcfg != "unset"):
+                            continue    # quick tier: the sibling-path variant of reuse only next to <= 2 elements
                         base = {"elements": list(subset), "input": inp, "mode": mode, "logcfg": logcfg,
                                 "cwd": "neutral", "name": "explicit", "path_state": "exists"}
                         cases.append(base)
@@ -1173,7 +1184,7 @@ def dir_cases(elements_universe, full):
 def _hidden_entries(clause, facts):
     """ glob('*') does not list dot-files: a directory whose only foreign entries are hidden is accepted (and left
         untouched). Must not hide: any accepted run with a visible foreign entry, any change of contents. """
-    return (clause == "foreign-content-not-refused" and facts.get("mode") in ("fresh", "reuse-elsewhere")
+    return (clause == "foreign-content-not-refused" and facts.get("mode") in ("fresh",) + ELSEWHERE_MODES
             and bool(facts.get("foreign_hidden")) and not facts.get("foreign_unexplained")
             and not facts.get("changes_beyond_region_gbk") and not facts.get("removed"))
 
